@@ -84,7 +84,8 @@ func (w *Freelist) Copyall() []uint64 {
 
 // Snapshot returns free ids, pending records (freeing tx, page, allocating tx) and readers.
 func (w *Freelist) Snapshot() (free []uint64, pending [][3]uint64, readers []uint64) {
-	return fl.VerifSnapshot(w.f)
+	free, pending = fl.VerifSnapshot(w.f)
+	return free, pending, fl.VerifReaders(w.f)
 }
 
 // WriteImage serialises the list into a fresh page image (a multiple of pageSize bytes).
